@@ -7,6 +7,8 @@
 // Oracle: value fingerprints read from the raw arrays of the containers (c05_common.hpp), never the code under test.
 #include "c05_common.hpp"
 #include <kernel/util/pack.hpp>
+#include <kernel/util/dist.hpp>
+#include <kernel/util/dist_file_io.hpp>
 #include <unistd.h>
 
 using namespace c05;
@@ -141,6 +143,7 @@ namespace
     int sv_mtx_empty = 0;   // SparseVector without entries fm_mtx
     int mtx_csr = 0, mtx_bcsr = 0; // fm_mtx write of an array-free CSR/BCSR matrix with rows
     int svb_file = 0;       // SparseVectorBlocked::write_out(mode, filename)
+    int dfio_stale = 0;     // DistFileIO::read_combined (serial) keeps stale content for an empty section
     int exp_null = 0;       // sanitizer build only: fm_exp reader of a length-0 vector binds &data[0] of an empty std::vector
   };
   Hazards hz;
@@ -154,6 +157,7 @@ namespace
   const char* KEY_MTX_CSR = "fm_mtx write_out of an entry-free (array-free) SparseMatrixCSR matrix with rows walks the missing row pointer";
   const char* KEY_MTX_BCSR = "fm_mtx write_out of an entry-free (array-free) SparseMatrixBCSR matrix with rows walks the missing row pointer";
   const char* KEY_EXPNULL = "fm_exp read of a length-0 DenseVector/DenseVectorBlocked binds &data[0] of an empty std::vector (UBSan only, benign)";
+  const char* KEY_DFIO = "DistFileIO::read_combined (serial) does not resize an output vector whose section in the file is empty (stale content stays)";
   const char* KEY_SVBFILE = "SparseVectorBlocked::write_out(mode, filename) puts a 16 MiB stream buffer on the stack (stack overflow)";
 
   struct Caps
@@ -483,9 +487,9 @@ int main(int argc, char** argv)
     "simplest first, incl. default-constructed, size-0, entry-free (array-free) and arrays-without-entries forms; Pack: one case per (value type, pack type, count 0..9, swap). "
     "Non-trivial: every case (hashed by kind and the fingerprint of the built container); trivial containers without arrays are included on purpose.";
   spec.bounds_quick = "DenseVector len<=9; DVBlocked<2>,<3> blocks<=4; SparseVector size<=4 all index subsets (+4 insertion-built); SVBlocked<2> size<=3; DenseMatrix<=3x3; "
-    "CSR all patterns<=3x3 (+entry-free 0..3 x 0..3, arrays-without-entries); BCSR<2,2>,<2,3> all block patterns<=2x2; Banded all offset subsets<=3x3; CSCR all used-row subsets x patterns<=2x3; "
-    "type pairs (double,u64),(float,u32),(double,u32); serialisation pairs {double,float}x{u64,u32}; modes: serialize/deserialize, fm_binary+own mode on stringstream/BinaryStream/file, checkpoint interface, fm_mtx, fm_exp";
-  spec.bounds_thorough = "as quick plus DenseVector len<=17, blocks<=7, SparseVector size<=5, DenseMatrix<=4x4, CSR 3x4 and 4x3 (all 4095 patterns each), BCSR block patterns<=3x3, Banded 4x4, CSCR<=3x3";
+    "CSR all patterns<=3x3 and 3x4 (+entry-free 0..3 x 0..3, arrays-without-entries); BCSR<2,2>,<2,3> all block patterns<=2x2; Banded all offset subsets<=3x3; CSCR all used-row subsets x patterns<=2x3; "
+    "DistFileIO serial combined/ordered/sequence for section sizes 0..5 x 0..5; type pairs (double,u64),(float,u32),(double,u32); serialisation pairs {double,float}x{u64,u32}; modes: serialize/deserialize, fm_binary+own mode on stringstream/BinaryStream/file, checkpoint interface, fm_mtx, fm_exp";
+  spec.bounds_thorough = "as quick plus DenseVector len<=17, blocks<=7, SparseVector size<=5, DenseMatrix<=4x4, CSR 4x3 (4095 patterns) and 4x4 (65535 patterns), BCSR block patterns<=3x3, Banded 4x4, CSCR<=3x3";
   spec.assumptions = {
     "oracle = fingerprints (sizes, scalar_index, scalar_dt, every raw array) read directly from the containers; text modes compare dimensions, pattern and values",
     "exact alphabet k/8 (|k|<=23) is representable in float and prints exactly with 7 significant digits; the rounding alphabet is compared with relative tolerance 5.01e-7 (printed precision)",
@@ -521,6 +525,19 @@ int main(int argc, char** argv)
     hz.mtx_bcsr = probe([]{ SparseMatrixBCSR<double, u64, 2, 2> d(1, 1); std::stringstream s2; d.write_out(FileMode::fm_mtx, s2); SparseMatrixCSR<double, u64> b(FileMode::fm_mtx, s2);
       return b.rows() == 2 && b.columns() == 2 && b.used_elements() == 0; });
     hz.svb_file = probe([]{ SparseVectorBlocked<double, u64, 2> a(3); const std::string fn = scratch_file("probe"); a.write_out(FileMode::fm_binary, fn); SparseVectorBlocked<double, u64, 2> b(FileMode::fm_binary, fn); unlink(fn.c_str()); return b.size() == 3; });
+    hz.dfio_stale = probe([]{
+      const std::string fn = scratch_file("probe.cmb");
+      Dist::Comm comm(Dist::Comm::world());
+      std::vector<char> c0, b0, c1(2, 'x'), b1(3, 'y');
+      DistFileIO::write_combined(c0, b0, fn, comm);
+      DistFileIO::read_combined(c1, b1, fn, comm);
+      unlink(fn.c_str());
+      return c1.empty() && b1.empty(); });
+    if(c.want())
+    {
+      c.desc([&]{ return std::string("probe: write_combined(empty, empty); read_combined into non-empty vectors"); });
+      c.check(hz.dfio_stale == 0, KEY_DFIO, [&]{ return std::string(probe_txt(hz.dfio_stale)); });
+    }
 #ifdef VERIF_ASAN
     hz.exp_null = probe([]{ std::stringstream s1(""), s2(""); DenseVector<double, u64> a(FileMode::fm_exp, s1); DenseVectorBlocked<double, u64, 2> b(FileMode::fm_exp, s2); return a.size() == 0 && b.size() == 0; });
 #endif
@@ -552,6 +569,52 @@ int main(int argc, char** argv)
     pack_type<std::uint64_t>(c, "u64", {{PT::U8, "U8"}, {PT::U32, "U32"}, {PT::U64, "U64"}});
     pack_type<float>(c, "f32", {{PT::F32, "F32"}, {PT::F64, "F64"}});
     pack_type<double>(c, "f64", {{PT::F32, "F32"}, {PT::F64, "F64"}});
+
+    // ---- DistFileIO (serial): combined, ordered, sequence and common files for every pair of section sizes 0..5
+    for(size_t nc = 0; nc <= 5; ++nc) for(size_t nb = 0; nb <= 5; ++nb) for(int prefill = 0; prefill < 2; ++prefill)
+    {
+      if(!c.want()) continue;
+      c.desc([&]{ return "DistFileIO serial common=" + std::to_string(nc) + " bytes, buffer=" + std::to_string(nb) + " bytes, output vectors " + (prefill ? "pre-filled" : "empty"); });
+      Dist::Comm comm(Dist::Comm::world());
+      std::vector<char> cm(nc), bf(nb);
+      for(size_t i = 0; i < nc; ++i) cm[i] = char(0x41 + i);
+      for(size_t i = 0; i < nb; ++i) bf[i] = char(0xF0 + i);
+      const std::string fn = scratch_file("cmb");
+      if(prefill && (nc == 0 || nb == 0) && hz.dfio_stale != 0) c.excluded("read_combined into pre-filled vectors with an empty section (reported once as finding)");
+      else
+      {
+        DistFileIO::write_combined(cm, bf, fn, comm);
+        std::vector<char> c2(prefill ? 7 : 0, 'z'), b2(prefill ? 9 : 0, 'z');
+        DistFileIO::read_combined(c2, b2, fn, comm);
+        c.check(c2 == cm && b2 == bf, "dist_file_io.combined round trip", [&]{ return "common " + std::to_string(c2.size()) + " buffer " + std::to_string(b2.size()); });
+        BinaryStream sc, sb, rc, rb;
+        sc.write(cm.data(), std::streamsize(nc)); sb.write(bf.data(), std::streamsize(nb));
+        DistFileIO::write_combined(sc, sb, fn, comm);
+        DistFileIO::read_combined(rc, rb, fn, comm);
+        c.check(rc.container() == cm && rb.container() == bf, "dist_file_io.combined BinaryStream round trip", "");
+      }
+      if(!prefill)
+      {
+        DistFileIO::write_ordered(bf.data(), nb, fn, comm);
+        std::vector<char> b3(nb + 1, 'q');
+        DistFileIO::read_ordered(b3.data(), nb, fn, comm);
+        c.check(std::equal(bf.begin(), bf.end(), b3.begin()) && b3[nb] == 'q', "dist_file_io.ordered round trip", "");
+        if(nb > 0)
+        {
+          BinaryStream ws, rs; ws.write(bf.data(), std::streamsize(nb));
+          DistFileIO::write_sequence(ws, fn + ".*", comm);
+          DistFileIO::read_sequence(rs, fn + ".*", comm);
+          c.check(rs.container() == bf, "dist_file_io.sequence round trip", "");
+          BinaryStream rs2; DistFileIO::read_common(rs2, DistFileIO::_rankname(fn + ".*", 0), comm);
+          c.check(rs2.container() == bf, "dist_file_io.read_common", "");
+          unlink(DistFileIO::_rankname(fn + ".*", 0).c_str());
+        }
+      }
+      unlink(fn.c_str());
+      c.count("dist_file_io_round_trips");
+      if(nc + nb > 0) c.nontrivial(verif::Hash().str("dfio").pod(nc).pod(nb).pod(prefill).get());
+      c.outcome("dist_file_io");
+    }
 
     // ---- containers
     const Caps cdv{FileMode::fm_dv, true, true, false, false}, cdvb{FileMode::fm_dvb, true, true, false, false}, csv{FileMode::fm_sv, true, false, false, false},
